@@ -131,6 +131,84 @@ def canonical(obj):
 # the rig: real frontend actor + client loop
 
 
+class InterleavingSet(set):
+    """Deterministic interleaving injection for the cross-thread hand-off.
+
+    WebSocketHandler.clients is read by the frontend's actor thread (broadcast) while the
+    IO-loop thread adds / discards handlers (open / on_close).  CPython switches threads
+    only between bytecode instructions, so a C-level read of the set (``.copy()``,
+    ``list(s)``, ``set(s)``, ``sorted(s)``) is atomic, whereas an iteration driven by
+    bytecode (a ``for`` loop, a comprehension, a generator expression: ``FOR_ITER``) can be
+    interrupted between any two elements.  This subclass makes exactly those points
+    schedulable: when armed, its iterator runs the planned actions (a real client connecting
+    or disconnecting, completed on the IO-loop thread) before handing out element number
+    ``point`` - but only if the ``__next__`` call comes from a ``FOR_ITER`` instruction.
+    The underlying real set iterator then behaves as CPython does (RuntimeError "Set
+    changed size during iteration").  ``set.copy()`` on a subclass returns a plain set and
+    never calls this ``__iter__``: on an atomic implementation no action ever fires and the
+    harness performs the planned actions right after the emit instead."""
+
+    def __init__(self, *a):
+        super().__init__(*a)
+        self.plan = []        # [(point, action)]
+        self.perform = None
+        self.fired = []
+        self.in_hook = False
+        self.errors = []
+
+    def arm(self, plan, perform):
+        self.plan, self.perform, self.fired = list(plan), perform, []
+
+    def disarm(self):
+        rest, self.plan = self.plan, []
+        return rest
+
+    def __iter__(self):
+        return _InterleavingIter(self, set.__iter__(self))
+
+
+class _InterleavingIter:
+    def __init__(self, owner, it):
+        self.owner, self.it, self.k = owner, it, 0
+
+    def __iter__(self):
+        return self
+
+    def __next__(self):
+        import dis
+        import sys as _sys
+
+        o = self.owner
+        if o.plan and not o.in_hook:
+            f = _sys._getframe(1)
+            if dis.opname[f.f_code.co_code[f.f_lasti]] == "FOR_ITER":
+                due = [pa for pa in o.plan if pa[0] <= self.k]
+                for pa in due:
+                    o.plan.remove(pa)
+                    o.in_hook = True
+                    try:
+                        o.perform(pa[1])
+                        o.fired.append((self.k, pa[1]))
+                    except Exception as e:  # noqa: BLE001
+                        o.errors.append(f"interleaved action {pa[1]} failed: {e!r}")
+                    finally:
+                        o.in_hook = False
+        self.k += 1
+        return next(self.it)
+
+
+class _Capture(__import__("logging").Handler):
+    def __init__(self):
+        super().__init__()
+        self.records = []
+
+    def emit(self, record):
+        txt = record.getMessage()
+        if record.exc_info and record.exc_info[1] is not None:
+            txt += f" {type(record.exc_info[1]).__name__}: {record.exc_info[1]}"
+        self.records.append(txt)
+
+
 class ProxyLoop:
     """Stands in for server.io_loop during settled runs: callbacks handed over by
     WebSocketHandler.broadcast are kept in FIFO order until the harness runs them."""
@@ -167,6 +245,15 @@ class Rig:
                      "csrf_protection": True, "default_app": "mopidy"},
         }
         self.core = L.RecordingCore()
+        # an exception escaping on_event is logged by pykka (and stops the actor): keep the text
+        import logging
+        self.actor_log = _Capture()
+        lg = logging.getLogger("pykka")
+        for h in list(lg.handlers):
+            if isinstance(h, _Capture):
+                lg.removeHandler(h)
+        lg.addHandler(self.actor_log)
+        lg.setLevel(logging.ERROR)
         self.ref = frontend_cls.start(config=self.config, core=self.core)
         self.server = self.ref.proxy().server.get()
         t0 = time.time()
@@ -197,6 +284,15 @@ class Rig:
             self.pykka.ActorRegistry.stop_all(timeout=5)
         except Exception:  # noqa: BLE001
             pass
+        try:
+            # a frontend that died of an unhandled exception never ran on_stop: the (non
+            # daemon) server thread must still be stopped or the interpreter cannot exit
+            if self.server.is_alive():
+                self.server.stop()
+                self.server.join(5)
+        except Exception:  # noqa: BLE001
+            pass
+        self.handlers.WebSocketHandler.clients = set()
         try:
             self.cloop.call_soon_threadsafe(self.cloop.stop)
         except Exception:  # noqa: BLE001
@@ -465,6 +561,124 @@ def gen_recovery_schedule(rng, max_clients=5):
     return steps, True
 
 
+def gen_interleaved_schedule(rng):
+    """Membership changes racing a broadcast: some emits carry actions (point, kind, client)
+    - another client connecting or disconnecting on the IO-loop thread when the frontend's
+    iteration over the client set (if it is not atomic) is about to hand out element number
+    `point`.  No write failures; always drained."""
+    k = rng.randint(1, 4)
+    steps = [("connect", c) for c in range(k)]
+    connected, ever, pending = list(range(k)), k, 0
+    for _ in range(rng.randint(1, 6)):
+        actions = []
+        if rng.random() < 0.75:
+            for _ in range(1 if rng.random() < 0.8 else 2):
+                point = rng.randint(0, len(connected))
+                if connected and (rng.random() < 0.5 or ever >= 8):
+                    c = rng.choice(connected)
+                    connected.remove(c)
+                    actions.append((point, "disconnect", c))
+                elif ever < 8:
+                    actions.append((point, "connect", ever))
+                    connected.append(ever)
+                    ever += 1
+        n_before = len(connected) - sum(1 for a in actions if a[1] == "connect") + sum(1 for a in actions if a[1] == "disconnect")
+        steps.append(("emit", tuple(actions)) if actions else ("emit",))
+        pending += n_before + len(actions)
+        for _ in range(rng.randint(0, 3)):
+            steps.append(("run",))
+            pending = max(0, pending - 1)
+    steps += [("run",)] * (pending + 2)
+    return steps, True
+
+
+def interleaved_monitors(steps, obs):
+    """Property predicates on a run with membership changes scheduled inside broadcasts.
+    A client that was connected before an event was emitted and is not itself the subject
+    of a membership change racing that broadcast must receive it (once, in order), whatever
+    the other clients do; a client not connected before must not - unless it is the subject
+    of such a change that really fell inside the iteration (then either is fine)."""
+    bad = []
+    died = obs.get("actor_died")
+    if died:
+        conn, i = set(), 0
+        # clients connected when the fatal event was emitted
+        for st in steps:
+            if st[0] == "connect":
+                conn.add(st[1])
+            elif st[0] == "disconnect":
+                conn.discard(st[1])
+            elif st[0] == "emit":
+                if i == died["emit"]:
+                    break
+                for a in (st[1] if len(st) > 1 else ()):
+                    (conn.add if a[1] == "connect" else conn.discard)(a[2])
+                i += 1
+        acts = "; ".join(f"client {a[1]} {a[0]}s on the IO-loop thread before element #{k} of the client set is handed out"
+                         for k, a in died["fired"]) or "?"
+        others = sorted(conn - {a[1] for _k, a in died["fired"]})
+        bad.append(("T2_isolation_complete",
+                    f"while event #{died['emit']} was being broadcast ({acts}) an exception escaped on_event "
+                    f"[{died['error'][:300]}]: the event is lost for the other connected clients {others} and the "
+                    f"frontend actor stopped (no later event reaches anyone)",
+                    {"fatal_emit": died["emit"], "fired": died["fired"]}))
+        return bad
+    for e in obs["escaped"]:
+        bad.append(("T2_failure_contained", e, {}))
+    fired_emits = {}
+    for e, _k, a in obs["fired"]:
+        fired_emits.setdefault(e, set()).add(a[1])
+    def leaves(c):
+        # a client that disconnects at some point may legitimately lose what was still queued
+        return any((st[0] == "disconnect" and st[1] == c)
+                   or (st[0] == "emit" and len(st) > 1 and any(a[1] == "disconnect" and a[2] == c for a in st[1]))
+                   for st in steps)
+
+    for c, log in obs["logs"].items():
+        conn, req, forb, i = False, [], set(), 0
+        for st in steps:
+            if st[0] == "connect" and st[1] == c:
+                conn = True
+            elif st[0] == "disconnect" and st[1] == c:
+                conn = False
+            elif st[0] == "emit":
+                acts = st[1] if len(st) > 1 else ()
+                if c in fired_emits.get(i, ()):
+                    pass                    # raced this very broadcast: either outcome
+                elif conn:
+                    req.append(i)
+                else:
+                    forb.add(i)
+                for a in acts:
+                    if a[2] == c:
+                        conn = a[1] == "connect"
+                i += 1
+        if any(x < 0 for x in log) or any(a >= b for a, b in zip(log, log[1:])):
+            bad.append(("T1_exactly_once_in_order", "duplicate, unknown or out-of-order delivery", {"client": c, "log": log}))
+        elif forb & set(log):
+            bad.append(("T1_exactly_once_in_order", f"client {c} received events {sorted(forb & set(log))} emitted while it was not connected",
+                        {"client": c, "log": log}))
+        elif not leaves(c) and not set(req) <= set(log):
+            bad.append(("T2_isolation_complete",
+                        f"client {c} was connected and untouched but missed events {sorted(set(req) - set(log))} "
+                        f"(membership changes of other clients raced those broadcasts: {obs['fired']})",
+                        {"client": c, "log": log}))
+    for cid, i, what, raw in shape_problems(obs)[:3]:
+        bad.append(("T4_message_shape", what, {"client": cid, "raw": raw}))
+    return bad
+
+
+_death_reported = [False]
+MINIMAL_INTERLEAVINGS = [
+    [("connect", 0), ("connect", 1), ("emit", ((1, "disconnect", 1),)), ("run",), ("run",), ("run",)],
+    [("connect", 0), ("connect", 1), ("emit", ((1, "disconnect", 0),)), ("run",), ("run",), ("run",)],
+    [("connect", 0), ("emit", ((1, "connect", 1),)), ("run",), ("run",), ("run",)],
+    [("connect", 0), ("emit", ((0, "connect", 1),)), ("run",), ("run",), ("run",)],
+    [("connect", 0), ("connect", 1), ("emit", ((0, "disconnect", 1),)), ("run",), ("run",), ("run",)],
+    [("connect", 0), ("connect", 1), ("connect", 2), ("emit", ((2, "disconnect", 1),)), ("run",), ("run",), ("run",), ("run",)],
+]
+
+
 def gen_repeat_schedule(rng):
     """All clients connect first and stay healthy; then emits (content-identical events
     allowed) interleaved with callback runs; fully drained."""
@@ -523,18 +737,39 @@ def run_settled(rig, rng, steps, repeats=False):
     emit_targets = []   # per emit: sorted cids a callback was scheduled for (None = unknown)
     escaped = []        # exceptions escaping a callback (must never happen)
     handler_cid = {}
+    flat_steps, fired, died = [], [], None
+    interleaved = any(st[0] == "emit" and len(st) > 1 and st[1] for st in steps)
+    iset = None
+    if interleaved:
+        # membership changes may be scheduled INSIDE a broadcast (see InterleavingSet)
+        iset = InterleavingSet()
+        rig.handlers.WebSocketHandler.clients = iset
+
+    def do_connect(cid):
+        c = Client(rig, cid)
+        c.connect()
+        clients[cid] = c
+        handler_cid[id(c.handler)] = cid
+
+    def do_disconnect(cid):
+        c = clients[cid]
+        c.recover()          # restore the connection object so that the close is orderly
+        c.sync("pre-close")
+        c.disconnect()
+
+    def perform(action):
+        (do_connect if action[0] == "connect" else do_disconnect)(action[1])
+
     try:
         for st in steps:
+            if died:
+                break
+            if st[0] != "emit":
+                flat_steps.append(tuple(st))
             if st[0] == "connect":
-                c = Client(rig, st[1])
-                c.connect()
-                clients[st[1]] = c
-                handler_cid[id(c.handler)] = st[1]
+                do_connect(st[1])
             elif st[0] == "disconnect":
-                c = clients[st[1]]
-                c.recover()          # restore the connection object so that the close is orderly
-                c.sync("pre-close")
-                c.disconnect()
+                do_disconnect(st[1])
             elif st[0] == "fail":
                 clients[st[1]].fail(st[2], st[3])
             elif st[0] == "recover":
@@ -547,8 +782,37 @@ def run_settled(rig, rng, steps, repeats=False):
                     name, kw, content = make_event(rng, len(events), used)
                 events.append((name, kw, content))
                 before = len(proxy.fifo)
+                actions = [tuple(a) for a in st[1]] if len(st) > 1 and st[1] else []
+                flat_steps.append(("emit",))
+                if actions:
+                    iset.arm([(a[0], (a[1], a[2])) for a in actions], perform)
+                n_log = len(rig.actor_log.records)
                 rig.emit(name, kw)
-                rig.barrier_actor()
+                try:
+                    rig.barrier_actor()
+                except Exception as e:  # noqa: BLE001
+                    if rig.ref.is_alive():
+                        raise
+                    import re as _re
+                    err = _re.sub(r" \(urn:uuid:[^)]*\)", "", "; ".join(rig.actor_log.records[n_log:]) or repr(e))
+                    died = {"emit": len(events) - 1, "error": err,
+                            "fired": [[k, list(a)] for k, a in (iset.fired if iset is not None else [])]}
+                if actions:
+                    for k, a in iset.fired:
+                        fired.append((len(events) - 1, k, a))
+                    escaped.extend(iset.errors)
+                    iset.errors = []
+                    # an atomic snapshot never reaches an injection point: the planned
+                    # membership changes then simply happen right after the emit
+                    rest = iset.disarm()
+                    if not died:
+                        for _pt, a in rest:
+                            perform(a)
+                    for a in actions:
+                        flat_steps.append((a[1], a[2]))
+                if died:
+                    emit_targets.append(None)
+                    break
                 new = proxy.fifo[before:]
                 tg = []
                 for cb, a, _kw in new:
@@ -567,7 +831,7 @@ def run_settled(rig, rng, steps, repeats=False):
                         escaped.append(repr(box["e"]))
         # settle: every open client reads everything written so far
         for cid, c in clients.items():
-            if not c.closed.is_set():
+            if not c.closed.is_set() and not died:
                 c.recover()
                 if not c.sync("end"):
                     escaped.append(f"client {cid} did not answer the final sync")
@@ -580,6 +844,8 @@ def run_settled(rig, rng, steps, repeats=False):
                     c.disconnect()
             except Exception as e:  # noqa: BLE001
                 escaped.append(f"cleanup: {e!r}")
+        if interleaved:
+            rig.handlers.WebSocketHandler.clients = set()
     logs, shapes = {}, []
     for cid, c in clients.items():
         dec, last = [], -1
@@ -598,7 +864,8 @@ def run_settled(rig, rng, steps, repeats=False):
             dec.append(i)
             shapes.append((cid, i, raw, obj))
         logs[cid] = dec
-    return {"logs": logs, "emit_targets": emit_targets, "events": events, "escaped": escaped, "shapes": shapes}
+    return {"logs": logs, "emit_targets": emit_targets, "events": events, "escaped": escaped, "shapes": shapes,
+            "flat_steps": flat_steps, "fired": fired, "actor_died": died}
 
 
 def shape_problems(obs):
@@ -926,19 +1193,87 @@ def load_corpus():
     out = []
     for f in sorted((vlib.VERIF / "corpus" / "C17").glob("*.json")):
         for sc in json.loads(f.read_text())["schedules"]:
-            out.append(([tuple(st) for st in sc["steps"]], bool(sc.get("drained")), bool(sc.get("repeats"))))
+            out.append(([norm_step(st) for st in sc["steps"]], bool(sc.get("drained")), bool(sc.get("repeats"))))
     return out
 
 
-def settled_stage(chk, rig, n_cases):
+def norm_step(st):
+    if st[0] == "emit" and len(st) > 1:
+        return ("emit", tuple(tuple(a) for a in st[1]))
+    return tuple(st)
+
+
+def jsonable_steps(steps):
+    return [[st[0], [list(a) for a in st[1]]] if st[0] == "emit" and len(st) > 1 else list(st) for st in steps]
+
+
+def fresh_rig(rigbox):
+    try:
+        rigbox[0].stop()
+    except Exception:  # noqa: BLE001
+        pass
+    rigbox[0] = Rig()
+    return rigbox[0]
+
+
+def report_interleaved(chk, rigbox, steps, obs):
+    """Monitors for a schedule with membership changes inside broadcasts; on a failure the
+    smallest hand-made interleaving that still fails is reported instead."""
+    bad = interleaved_monitors(steps, obs)
+    if obs.get("actor_died"):
+        fresh_rig(rigbox)
+        if _death_reported[0]:
+            return          # one (minimal) history of a dying frontend is enough
+        _death_reported[0] = True
+    if not bad:
+        return
+    mon0 = bad[0][0]
+    if _shrunk[0] < 3:
+        _shrunk[0] += 1
+        for cand in MINIMAL_INTERLEAVINGS:
+            try:
+                o = run_settled(rigbox[0], vlib.Rng(0, "c17-shrink"), cand)
+            except Exception as e:  # noqa: BLE001
+                chk.notes.append(f"minimal interleaving could not be run: {e!r}")
+                fresh_rig(rigbox)
+                continue
+            b = interleaved_monitors(cand, o)
+            if o.get("actor_died"):
+                fresh_rig(rigbox)
+            if any(m == mon0 for m, _w, _d in b):
+                steps, obs, bad = cand, o, b
+                break
+    for mon, what, detail in bad[:4]:
+        chk.monitor_failure(mon, {"monitor": mon, "mode": "interleaved"}, what,
+                            {"steps": jsonable_steps(steps), "drained": True, "logs": obs["logs"],
+                             "fired": [[e, k, list(a)] for e, k, a in obs["fired"]], **detail})
+
+
+def settled_stage(chk, rigbox, n_cases):
     rows = []
     corpus = load_corpus()
     for k in range(len(corpus) + n_cases):
+        rig = rigbox[0]
+        repeats = False
         if k < len(corpus):
             steps, drained, repeats = corpus[k]
+        elif chk.rng.random() < 0.10:
+            steps, drained = gen_interleaved_schedule(chk.rng)
         else:
             repeats = chk.rng.random() < 0.12
             steps, drained = gen_repeat_schedule(chk.rng) if repeats else gen_schedule(chk.rng)
+        if any(st[0] == "emit" and len(st) > 1 for st in steps):
+            # membership changes scheduled inside broadcasts (deterministic interleaving)
+            obs = run_settled(rig, chk.rng, steps)
+            chk.dist("settled:membership-change-scheduled-inside-broadcast")
+            chk.dist(f"settled:injection-points-reached={'0 (atomic snapshot)' if not obs['fired'] and not obs['actor_died'] else '>0'}")
+            chk.count(1, nontrivial_key=json.dumps(jsonable_steps(steps)))
+            report_interleaved(chk, rigbox, steps, obs)
+            if not obs["fired"] and not obs["actor_died"]:
+                # nothing fell inside an iteration: the run is the flat schedule, compared
+                # exactly with the model like every other settled run
+                rows.append((obs["flat_steps"], drained, obs))
+            continue
         obs = run_settled(rig, chk.rng, steps, repeats=repeats)
         rows.append((steps, drained, obs))
         if repeats:
@@ -1070,6 +1405,9 @@ def racing_stage(chk, rig, n_cases):
     chk.obligation("corr:racing", "correspondence", not any(c["name"] == "racing" for c in chk.corr_failures))
 
 
+_SEARCH_RIG = [None]
+
+
 def search(cf):
     """Directed search after a broken tie: re-run the disagreeing schedule, its prefixes and
     random sub-schedules in settled mode, looking for a run on which a property monitor
@@ -1079,14 +1417,34 @@ def search(cf):
     if not steps:
         return None
     rig = Rig()
+    _SEARCH_RIG[0] = rig
     try:
-        return _search(rig, [tuple(st) for st in steps])
+        return _search(rig, [norm_step(st) for st in steps if not (st[0] == "emit" and len(st) > 1 and False)])
     finally:
-        rig.stop()
+        _SEARCH_RIG[0].stop()
+        if not rig.stopped:
+            rig.stop()
 
 
 def _search(rig, steps):
     rng = vlib.Rng(0, "c17-search")
+    # first: membership changes scheduled inside a broadcast (non-atomic snapshot?)
+    rigbox = [rig]
+    try:
+        for cand in MINIMAL_INTERLEAVINGS:
+            obs = run_settled(rigbox[0], rng, cand)
+            bad = interleaved_monitors(cand, obs)
+            if obs.get("actor_died"):
+                fresh_rig(rigbox)
+            if bad:
+                mon, what, detail = bad[0]
+                return {"monitor": mon, "key": {"monitor": mon, "mode": "interleaved"}, "what": what,
+                        "case": {"steps": jsonable_steps(cand), "logs": obs["logs"], **detail}}
+    finally:
+        if rigbox[0] is not rig:
+            rig.stopped or rig.stop()
+            rig = rigbox[0]
+            _SEARCH_RIG[0] = rig
     cands = [steps + [("run",)] * 40] + [steps[:k] + [("run",)] * 40 for k in range(len(steps), 0, -max(1, len(steps) // 10))]
     for _ in range(60):
         sub = [st for st in steps if rng.random() < 0.8]
@@ -1112,10 +1470,18 @@ def replay(chk, rig):
     case = data.get("case") or {}
     if "steps" not in case and data.get("correspondence_failures"):
         case = data["correspondence_failures"][0].get("case") or {}
-    steps = [tuple(st) for st in case.get("steps", [])]
+    steps = [norm_step(st) for st in case.get("steps", [])]
     if not steps:
         chk.notes.append("replay file has no schedule; running the normal check")
         return False
+    if any(st[0] == "emit" and len(st) > 1 for st in steps):
+        obs = run_settled(rig, chk.rng, steps)
+        chk.count(1)
+        chk.sample({"replayed_steps": jsonable_steps(steps), "logs": obs["logs"], "fired": obs["fired"]})
+        for mon, what, detail in interleaved_monitors(steps, obs):
+            chk.monitor_failure(mon, {"monitor": mon, "mode": "interleaved"}, what,
+                                {"steps": jsonable_steps(steps), "logs": obs["logs"], **detail})
+        return True
     obs = run_settled(rig, chk.rng, steps, repeats=bool(case.get("repeats")))
     chk.count(1)
     chk.sample({"replayed_steps": [list(st) for st in steps], "logs": obs["logs"]})
@@ -1137,7 +1503,7 @@ def run(chk):
         "pydantic JSON dump of event payloads - oracle (C08 owns the payload encoding)",
     ]
     chk.assumptions = [
-        "the actor-thread -> IO-loop hand-off is an atomic enqueue of a snapshot of the client set (settled runs enforce it; racing runs exercise the real interleaving but only monitor T1-T3)",
+        "the actor-thread -> IO-loop hand-off is an atomic enqueue of a snapshot of the client set (checked on the implementation by injecting client connects/disconnects at every point where a bytecode-driven iteration over the shared set could be interrupted - CPython switches threads only between bytecodes; racing runs exercise real interleavings but only monitor T1-T3)",
         "client ids name handler objects and are not reused",
     ]
     built = chk.proof_stage(PROP_FILES, thorough_coqchk=False)
@@ -1153,7 +1519,11 @@ def run(chk):
         if chk.replay and replay(chk, rig):
             return
         message_stage(chk)
-        settled_stage(chk, rig, 1000 if chk.tier == "quick" else 12000)
-        racing_stage(chk, rig, 120 if chk.tier == "quick" else 1500)
+        rigbox = [rig]
+        try:
+            settled_stage(chk, rigbox, 1000 if chk.tier == "quick" else 12000)
+            racing_stage(chk, rigbox[0], 120 if chk.tier == "quick" else 1500)
+        finally:
+            rig = rigbox[0]
     finally:
         rig.stop()
